@@ -174,6 +174,8 @@ def result_ops():
     ops.append(("Top", "query Top { top }\n", {"pos:top_level_scalar"}))
     ops.append(("Tops", "query Tops { tops }\nquery TopOther { r { plain } }\n", {"pos:top_level_scalar"}))
     ops.append(("TopReq", "query TopOther { r { plain } }\nquery TopReq { topReq }\n", {"pos:top_level_scalar"}))
+    ops.append(("RInh", "query RInh { r { node { ...FBase } } }\nquery RInh2 { r { nodeReq { ... on A { ...FScal } } } }\nfragment FBase on Node { id ...FScal }\nfragment FScal on Node { sc }\n",
+                {"pos:fragment_inherited_and_unpacked"}))
     ops.append(("RAbs", "query RAbs { r { node { id sc ... on A { extra } ... on B { other } } nodes { sc ... on A { id } ... on B { id } } nodeReq { sc ... on A { id } ... on B { id } } } }\n", {"pos:abstract_members"}))
     return ops
 
@@ -325,11 +327,14 @@ def evaluate(case):
         from graphql import parse_type, type_from_ast
         for sub_name, vars_ in (op[4] if len(op) > 4 else [(op[0], op[2])]):
             mname = str_to_snake_case(sub_name)
-            arg_position(schema, mod, mname, vars_, cfg, CALLS, py_of, raw_of, out, P)
+            arg_position(schema, mod, mname, vars_, cfg, CALLS, py_of, raw_of, out, P, options, case.get("tracer", "none"))
     return finish(out)
 
 
-def arg_position(schema, mod, mname, vars_, cfg, CALLS, py_of, raw_of, out, P):
+def arg_position(schema, mod, mname, vars_, cfg, CALLS, py_of, raw_of, out, P, options=None, tracer="none"):
+    from mc.opcheck import client_kind
+    is_async = (options or {}).get("async_client", True)
+    ckw = clients.tracer_kwargs(client_kind(options or {}), tracer)
     from graphql import parse_type, type_from_ast
     if True:
         menus = {}
@@ -357,7 +362,7 @@ def arg_position(schema, mod, mname, vars_, cfg, CALLS, py_of, raw_of, out, P):
                 P.append(("cannot_build_argument", f"{type(e).__name__}: {str(e)[:300]}", ctx))
                 continue
             del CALLS[:]
-            captured, (st, val) = inputs.call_and_capture(mod, mod.Client, True, mname, kwargs)
+            captured, (st, val) = inputs.call_and_capture(mod, mod.Client, is_async, mname, kwargs, client_kwargs=ckw)
             calls = list(CALLS)
             if len(captured) != 1:
                 P.append(("call_failed", f"{st}: {val!r}; calls={calls}", ctx))
@@ -428,6 +433,11 @@ def build_cases(tier):
             if cfg in ("type_only", "serialize", "both"):
                 for op in (arg_ops() if full else arg_ops()[:3] + arg_ops()[-3:]):
                     cases.append(dict(cfg=cfg, style=style, kind="arg", op=op))
+                    # the four base clients serialise variables separately (and the OpenTelemetry ones again on their traced path)
+                    if full and cfg == "both":
+                        for copt, tr in (({"async_client": False}, "none"), ({"async_client": False, "opentelemetry_client": True}, "stub"), ({"opentelemetry_client": True}, "stub"),
+                                         ({"async_client": False, "opentelemetry_client": True}, "none")):
+                            cases.append(dict(cfg=cfg, style=style, kind="arg", op=op, options=dict(copt), tracer=tr))
                     # only the inputs the operations use: every import the kept classes need must still be emitted
                     if full and ("pos:input_field" in op[3] or "nested" in "".join(op[3]) or "two_scalars" in "".join(op[3])):
                         cases.append(dict(cfg=cfg, style=style, kind="arg", op=op, options={"include_all_inputs": False}))
@@ -441,8 +451,8 @@ def main(tier):
     results = pool.run_cases(evaluate, cases, timeout=300, progress=200)
     evals, distinct, outcomes = 0, 0, set()
     for case, (st, r) in zip(cases, results):
-        feats = {f"cfg:{case['cfg']}", f"import:{case['style']}", f"kind:{case['kind']}"} | {f"opt:{k}={v}" for k, v in (case.get("options") or {}).items()} | set(case["op"][3] if len(case["op"]) > 3 else case["op"][2])
-        desc = {"scalar_config": case["cfg"], "import_style": case["style"], "query": case["op"][1], "options": case.get("options") or {}}
+        feats = {f"cfg:{case['cfg']}", f"import:{case['style']}", f"kind:{case['kind']}"} | {f"opt:{k}={v}" for k, v in (case.get("options") or {}).items()} | ({f"tracer:{case['tracer']}"} if case.get("tracer", "none") != "none" else set()) | set(case["op"][3] if len(case["op"]) > 3 else case["op"][2])
+        desc = {"scalar_config": case["cfg"], "import_style": case["style"], "query": case["op"][1], "options": case.get("options") or {}, "tracer": case.get("tracer", "none")}
         if rep.triage:
             rep.seen(feats)
         if st != "ok":
@@ -471,7 +481,7 @@ def replay(path):
     c = rec["case"]
     genpkg.warm()
     for case in build_cases("thorough"):
-        if case["cfg"] == c["scalar_config"] and case["style"] == c["import_style"] and case["op"][1] == c["query"] and (case.get("options") or {}) == (c.get("options") or {}):
+        if case["cfg"] == c["scalar_config"] and case["style"] == c["import_style"] and case["op"][1] == c["query"] and (case.get("options") or {}) == (c.get("options") or {}) and case.get("tracer", "none") == c.get("tracer", "none"):
             st, r = pool.run_forked(evaluate, case)
             print(st, r if st != "ok" else {k: v for k, v in r.items() if k != "problems"})
             hits = [p for p in (r or {}).get("problems", []) if p[0] == rec["clause"]] if st == "ok" else [1]
